@@ -158,7 +158,10 @@ def write_evidence(pid, tier, level, coverage, wall, violations, assumptions=Non
           "assumptions": assumptions or [], "wall_s": round(wall, 2), "violations": violations}
     if extra:
         ev.update(extra)
-    with open(os.path.join(EVID, pid + ".json"), "w") as f:
+    # selftest/try_seed.sh runs the checks against a deliberately broken tree: those runs go to a scratch directory
+    target = os.path.join(WORK, "seeded-evidence") if os.environ.get("SCCV_SEEDED_RUN") else EVID
+    os.makedirs(target, exist_ok=True)
+    with open(os.path.join(target, pid + ".json"), "w") as f:
         json.dump(ev, f, indent=1, sort_keys=True)
     return ev
 
